@@ -214,7 +214,8 @@ Eval(e, env, st, d) ==
     [] e.k = "import" ->
          IF e.n \in DOMAIN st.mods THEN OkR(st.mods[e.n], st)
          ELSE IF e.n \notin DOMAIN st.msrc THEN ErrR(VErr("unresolved-module", e.n), st)
-         ELSE LET r == ExecSeq(st.msrc[e.n], 1, Push(<<>>), [st EXCEPT !.log = Append(@, VStr("load:" \o e.n))], d + 1)
+         \* "bm" is the builtin (Go) module: its body is a map literal, evaluated per run (the value is private to the run), nothing is logged
+         ELSE LET r == ExecSeq(st.msrc[e.n], 1, Push(<<>>), [st EXCEPT !.log = IF e.n = "bm" THEN @ ELSE Append(@, VStr("load:" \o e.n))], d + 1)
                   v == IF r.o[1] = "ret" THEN r.o[2] ELSE VUndef
               IN IF r.o[1] = "thr" THEN ErrR(r.o[2], r.st)
                  ELSE OkR(v, [r.st EXCEPT !.mods = FunUpd(@, e.n, v)])
